@@ -63,6 +63,7 @@ type modelState struct {
 	extraVars      []*smt.Term
 	civilSeq       int
 	splitCalendar  bool
+	onceDone       map[*value]bool // sync.Once objects whose function has run on this path
 	nondetMapOrder bool // verifrt.NondetMapOrder: ranges over maps take an arbitrary one of two orders
 	exactFloat     bool
 	fpSh           map[int]fpShadow
@@ -89,6 +90,7 @@ func (ex *Exec) modelReset() {
 	ex.splitCalendar = false
 	ex.exactFloat = false
 	ex.nondetMapOrder = false
+	ex.onceDone = nil
 	ex.ymdMemo = nil
 	ex.usMemo = nil
 	ex.syncMaps = nil
@@ -228,6 +230,27 @@ func (ex *Exec) syncMapFind(m *[]syncMapEntry, k value) int {
 }
 
 func init() {
+	// Mutexes: the engine runs one goroutine, so taking and releasing a lock changes nothing (data races are not what
+	// these models decide; state kept under a lock between calls is, and it stays visible).
+	for _, m := range []string{"(*sync.Mutex).Lock", "(*sync.Mutex).Unlock", "(*sync.RWMutex).Lock", "(*sync.RWMutex).Unlock", "(*sync.RWMutex).RLock", "(*sync.RWMutex).RUnlock"} {
+		reg(m, func(ex *Exec, fr *frame, pos token.Pos, args []value) value { return nil })
+	}
+	// sync.Once: the function runs at the first Do of this Once object on the path, never again
+	reg("(*sync.Once).Do", func(ex *Exec, fr *frame, pos token.Pos, args []value) value {
+		cell, _ := args[0].(*value)
+		if cell == nil {
+			panic(ex.unsupported("sync.Once.Do on a nil or non-pointer receiver"))
+		}
+		if ex.onceDone == nil {
+			ex.onceDone = map[*value]bool{}
+		}
+		if ex.onceDone[cell] {
+			return nil
+		}
+		ex.onceDone[cell] = true
+		ex.callValue(fr, pos, args[1], nil)
+		return nil
+	})
 	reg("(*sync.Map).Load", func(ex *Exec, fr *frame, pos token.Pos, args []value) value {
 		m := ex.syncMapOf(args[0])
 		if i := ex.syncMapFind(m, args[1]); i >= 0 {
